@@ -178,8 +178,33 @@ func (pp c08) Run(c *core.Ctx, idx int) {
 		o.Choices = true
 	}
 	o.KeyTypes = []string{"string", "int32", "int64", "uint8", "uint32", "enumeration", "boolean", "int8", "uint16", "uint64", "int16", "identityref", "decimal64"}
+	// the data of every 8th case (and of four fixed ones) lives in Go maps, slices and structs behind nodeutil.Reflect / nodeutil.Node
+	goFixture := idx >= 3 && idx <= 6
+	useGo := idx%8 == 7 || goFixture
+	var gm dp.GoMode
+	if useGo {
+		gm = dp.GoModes[(idx/8)%len(dp.GoModes)]
+		if goFixture {
+			gm = dp.GoModes[idx-3]
+		}
+		dp.GoGen(&o, gm)
+		o.Aug = false
+		o.Choices = o.Choices && gm.Shape == "map"
+		o.NestedChoice = o.NestedChoice && o.Choices
+	}
 	s := dp.GenSchema(r, o)
 	fixture := idx == 1 || idx == 2
+	if goFixture {
+		// integer keys further apart than 2^63 (and the usual neighbours), strings that sort differently as text and as numbers
+		lf := func(n, t string) *dp.SNode { return &dp.SNode{Kind: dp.Leaf, Name: n, Type: &dp.SType{Base: t}} }
+		s = &dp.Schema{Name: "m", Prefix: "m", NS: "urn:m", Top: []*dp.SNode{
+			{Kind: dp.List, Name: "li", Keys: []string{"k"}, Children: []*dp.SNode{lf("k", "int64"), lf("v", "string")}},
+			{Kind: dp.List, Name: "ls", Keys: []string{"k"}, Children: []*dp.SNode{lf("k", "string"), lf("v", "string")}},
+			{Kind: dp.List, Name: "l32", Keys: []string{"k"}, Children: []*dp.SNode{lf("k", "int32"), lf("v", "string")}},
+			{Kind: dp.List, Name: "lj", Keys: []string{"k"}, Children: []*dp.SNode{lf("k", "int64"), lf("v", "string")}},
+			{Kind: dp.List, Name: "lk", Keys: []string{"k"}, Children: []*dp.SNode{lf("k", "int64"), lf("v", "string")}},
+		}}
+	}
 	if fixture {
 		// every reserved character as (part of) a key, single and composite, on every run
 		str := func(n string) *dp.SNode { return &dp.SNode{Kind: dp.Leaf, Name: n, Type: &dp.SType{Base: "string"}} }
@@ -220,11 +245,49 @@ func (pp c08) Run(c *core.Ctx, idx int) {
 			l2.Entries = append(l2.Entries, e2)
 		}
 	}
+	if goFixture {
+		t = dp.NewDNode(nil)
+		for li, keys := range [][]string{
+			{"-9223372036854775808", "-1", "0", "7", "9223372036854775807", "-9223372036854775807", "4611686018427387904"},
+			{"10", "9", "a", "B", "b", "-1", "01"},
+			{"-2147483648", "2147483647", "0", "-1", "65536"},
+			{"-9223372036854775808", "-1", "0", "7", "9223372036854775807"},
+			{"-9223372036854775808", "-4611686018427387905", "-3", "2", "4611686018427387904", "9223372036854775806", "100", "-100"},
+		} {
+			l := &dp.DList{S: s.Top[li]}
+			t.Lists[s.Top[li].Name] = l
+			if li != 3 {
+				r.Shuffle(len(keys), func(i, j int) { keys[i], keys[j] = keys[j], keys[i] })
+			}
+			if li == 4 {
+				keys = keys[:5]
+			}
+			for i, k := range keys {
+				e := dp.NewDNode(s.Top[li])
+				e.Leaves["k"] = &dp.LVal{V: []string{k}}
+				e.Leaves["v"] = &dp.LVal{V: []string{fmt.Sprintf("v%d", i)}}
+				l.Entries = append(l.Entries, e)
+			}
+		}
+	}
+	if useGo {
+		dp.DropEmptyLists(t)
+	}
 	pristine := t.Clone()
 	store := dp.NewStore(s, t)
-	useJSON := idx%4 == 2
+	useJSON := idx%4 == 2 && !useGo
 	storeName := "refstore"
 	mkBrowser := func() *node.Browser { return store.Browser() }
+	var gostore *dp.GoStore
+	if useGo {
+		if why := dp.GoSupports(s, gm); why != "" {
+			c.Count("go_store_schema_outside_domain")
+			return
+		}
+		gostore = dp.NewGoStore(r, s, gm, t)
+		storeName = gm.String()
+		mkBrowser = func() *node.Browser { return gostore.Browser() }
+	}
 	if useJSON {
 		storeName = "json"
 		doc := dp.EncodeJSON(s, t, dp.JOpts{Int64AsString: true})
@@ -299,7 +362,11 @@ func (pp c08) Run(c *core.Ctx, idx int) {
 			want, got = mn, capt.Root
 			got.S = mn.S
 		}
-		if d := diffAt(s, want, got, ml != nil); d != "" {
+		if useGo && gm.Shape == "struct" {
+			// a struct field cannot tell its zero value from 'unset'
+			want, got = dp.ZeroNormalize(want), dp.ZeroNormalize(got)
+		}
+		if d := diffAt(s, want, got, ml != nil, useGo); d != "" {
 			c.Violate("wrong-content/"+sigTail, "%s: content of the selection differs from the addressed node:\n%s\n%s", what, d, wit())
 			return false
 		}
@@ -472,7 +539,13 @@ func (pp c08) Run(c *core.Ctx, idx int) {
 			}
 		}
 	})
-	if !useJSON {
+	if gostore != nil {
+		if snap, err := gostore.Snapshot(); err != nil {
+			c.Violate("navigation-modified-data/"+storeName, "the Go values no longer denote a tree of the schema: %v\n%s", err, wit())
+		} else if d := dp.Diff(s, pristine, snap, dp.CmpOpts{IgnoreListOrder: true, EmptyListIsAbsent: true}); d != "" && gm.Shape == "map" {
+			c.Violate("navigation-modified-data/"+storeName, "the store changed while navigating:\n%s\n%s", d, wit())
+		}
+	} else if !useJSON {
 		if d := dp.Diff(s, pristine, store.Root, dp.CmpOpts{}); d != "" {
 			c.Violate("navigation-modified-data", "the store changed while navigating:\n%s\n%s", d, wit())
 		}
@@ -505,7 +578,9 @@ func captNodeFor(capt *dp.Capture, sn *dp.SNode, isList bool) node.Node {
 	return capt.Node()
 }
 
-func diffAt(s *dp.Schema, want, got *dp.DNode, isList bool) string {
+func diffAt(s *dp.Schema, want, got *dp.DNode, isList, anyOrder bool) string {
+	// Go maps and sorted slices give their entries in key order, the model keeps the order of insertion
+	o := dp.CmpOpts{DefaultsMayAppear: true, IgnoreListOrder: anyOrder, EmptyListIsAbsent: anyOrder}
 	if isList {
 		// compare only the list
 		for name, wl := range want.Lists {
@@ -517,11 +592,11 @@ func diffAt(s *dp.Schema, want, got *dp.DNode, isList bool) string {
 			if gl != nil {
 				g.Lists[name] = gl
 			}
-			return dp.Diff(s, w, g, dp.CmpOpts{DefaultsMayAppear: true})
+			return dp.Diff(s, w, g, o)
 		}
 		return ""
 	}
-	return dp.Diff(s, want, got, dp.CmpOpts{DefaultsMayAppear: true})
+	return dp.Diff(s, want, got, o)
 }
 
 // pathChain compares the structured path (Meta and Key of every segment) with the model path.
